@@ -93,7 +93,9 @@ func (s *StoreManager) Deliver(
 		Size:      int64(len(source)),
 	}
 
-	extResult := s.ExtHost.Events.BeforeMessageStored.Emit(inbound)
+	// Extensions get their own copy of the addresses: a handler that modifies them and then
+	// fails, or defers, must not alter the envelope or the message that is stored.
+	extResult := s.ExtHost.Events.BeforeMessageStored.Emit(cloneInbound(inbound))
 	if extResult == nil {
 		// Use address policy to determine deliverable mailboxes.
 		mailboxes = mailboxes[:0]
@@ -139,6 +141,24 @@ func (s *StoreManager) Deliver(
 	}
 
 	return nil
+}
+
+// cloneInbound returns a copy of m that shares no mutable data with it.
+func cloneInbound(m *event.InboundMessage) *event.InboundMessage {
+	c := *m
+	c.Mailboxes = append([]string(nil), m.Mailboxes...)
+	if m.From != nil {
+		from := *m.From
+		c.From = &from
+	}
+	c.To = make([]*mail.Address, len(m.To))
+	for i, a := range m.To {
+		if a != nil {
+			to := *a
+			c.To[i] = &to
+		}
+	}
+	return &c
 }
 
 // GetMetadata returns a slice of metadata for the specified mailbox.
